@@ -55,6 +55,7 @@ func runRegressionScenario(e *env) {
 	h.ch.setHead(b1x)
 	h.logf("scenario: reorg B2->B1' (sibling of B1 without the funding): A0 nonce 0, balance 2M; n0 re-admitted, n1 (6.21M) unaffordable")
 	pre = h.prev
+	h.lost = map[common.Hash]*types.Transaction{n0.Hash(): n0, n1.Hash(): n1}
 	h.pool.Reset(b2.header, b1x.header)
 	h.prev = h.check("reorg", true, pre, allProcessed)
 	r.Count("scripted_scenarios", 1)
